@@ -326,8 +326,8 @@ class Executor:
             return True
         if isinstance(v, SymObj):
             if v.cls_set is None:
-                if getattr(v, 'known_not_none', False):
-                    return False
+                if getattr(v, 'known_not_none', False) or v.label == 'self':
+                    return False               # (the receiver of the method under contract is an object)
                 k = self.choose(2, f'{v.label} is None', ['None', 'notNone'])
                 if k == 0:
                     v.cls_set = frozenset({NoneType})
